@@ -54,15 +54,15 @@ def _verilate(prefix, top, srcs, out, extra=''):
             % (prefix, top, extra, out, ' '.join(srcs), out))
 
 
-def _vl_compile(out, prefix, extra_srcs, exe, cxxflags='', trace=False):
+def _vl_compile(out, prefix, extra_srcs, exe, cxxflags='', trace=False, libs=''):
     """Build the verilated model archive with its makefile, then link a harness."""
     rt = ['%s/include/verilated.cpp' % VERILATOR_ROOT, '%s/include/verilated_threads.cpp' % VERILATOR_ROOT]
     if trace:
         rt.append('%s/include/verilated_vcd_c.cpp' % VERILATOR_ROOT)
     return [
         'make -s -C %s -f %s.mk -j8 %s__ALL.a OPT_FAST="-O2" > %s/make.log 2>&1' % (out, prefix, prefix, out),
-        ('g++ -std=c++17 -O2 %s -I%s -I%s/include -I%s/include/vltstd -I%s -I%s %s %s %s/%s__ALL.a -pthread -o %s/%s'
-         % (cxxflags, out, VERILATOR_ROOT, VERILATOR_ROOT, REPO, SRC, ' '.join(extra_srcs), ' '.join(rt), out, prefix, out, exe)),
+        ('g++ -std=c++17 -O2 %s -I%s -I%s/include -I%s/include/vltstd -I%s -I%s %s %s %s/%s__ALL.a %s -pthread -o %s/%s'
+         % (cxxflags, out, VERILATOR_ROOT, VERILATOR_ROOT, REPO, SRC, ' '.join(extra_srcs), ' '.join(rt), out, prefix, libs, out, exe)),
     ]
 
 
@@ -107,7 +107,7 @@ def _targets():
     t['c03'] = dict(
         deps=SV + _s('c03_rtl.cpp', 'refisa.hpp', 'vjson.hpp', 'isagen.hpp'),
         cmds=lambda out: [_verilate('Vrtl', 'hex', SV, out, '--public-flat-rw')] +
-        _vl_compile(out, 'Vrtl', _s('c03_rtl.cpp'), 'c03', cxxflags='-DVTOP=Vrtl', ) )
+        _vl_compile(out, 'Vrtl', _s('c03_rtl.cpp'), 'c03', libs='-lrapidcheck'))
     t['c16'] = dict(
         deps=SV + PV + _r('synth/processor.v') + _s('c16_v_vs_sv.cpp', 'refisa.hpp', 'vjson.hpp', 'isagen.hpp'),
         cmds=lambda out: _c16_cmds(out))
